@@ -76,6 +76,19 @@ func (p *clientStreamProcessorFMP4) run(ctx context.Context) error {
 		return err
 	}
 
+	// discard tracks with unsupported codecs
+	var supportedTracks []*fmp4.InitTrack
+	for _, track := range p.init.Tracks {
+		if codecs.FromFMP4(track.Codec) != nil {
+			supportedTracks = append(supportedTracks, track)
+		}
+	}
+	p.init.Tracks = supportedTracks
+
+	if len(p.init.Tracks) == 0 {
+		return fmt.Errorf("no supported tracks found")
+	}
+
 	if !p.isLeading && len(p.init.Tracks) != 1 {
 		return fmt.Errorf("rendition playlists with multiple tracks are not supported")
 	}
